@@ -2,11 +2,9 @@ package props
 
 import (
 	"context"
-	"encoding/binary"
 	"encoding/json"
 	"fmt"
 	goio "io"
-	"math/bits"
 	"path/filepath"
 	"regexp"
 	"strconv"
@@ -178,7 +176,9 @@ func c25GetPool() (*c25Pool, error) {
 	if c25P != nil {
 		return c25P, nil
 	}
-	p := &c25Pool{sender: &tginst.RecSender{}}
+	// Keep: the transmitted messages are the very slices the WAL goroutine handed to the sender, read only after
+	// the master has committed the whole history (a replication backlog: the replica is behind by every TG)
+	p := &c25Pool{sender: &tginst.RecSender{Keep: true}}
 	var err error
 	if p.m, err = tginst.New(nil, p.sender); err != nil {
 		return nil, err
@@ -463,15 +463,8 @@ func c25Run(raw json.RawMessage) (res Result, err error) {
 	res.Coq = cq.Rec(cq.F("k_tgs", cq.List(ctgs)), cq.F("k_rcode", cq.Nat(rcode)), cq.F("k_q", cq.List(cq_)))
 
 	// ---- classes (executable mirrors of the Coq guards) and the property oracle ----
-	// class decoded-second-rounded-up (C10 F1 / C09): GetTimeFromTicks rounds the seconds to 8 decimals but keeps the
-	// sub-second part, so ticks whose exact position has a fraction >= 0.99999999 s decode about a second late.  The
-	// replica re-encodes the DECODED time, so the rounding can bite on the master's ticks or on the re-encoded ones.
-	mixed, f1 := false, false
+	mixed := false
 	nvar, nfix := 0, 0
-	f1At := func(ipd uint32, ticks uint32) bool {
-		hi, lo := bits.Mul64(uint64(ticks), 86400000000000/uint64(ipd))
-		return (hi<<32|lo>>32)%1000000000 >= 999999990
-	}
 	for _, tg := range obs.TGs {
 		for _, w := range tg {
 			if w.RT != tg[0].RT {
@@ -479,17 +472,6 @@ func c25Run(raw json.RawMessage) (res Result, err error) {
 			}
 			if w.RT == int(io.VARIABLE) && w.VRL >= 4 {
 				nvar++
-				ipd := uint32(int64(86400) * 1000000000 / w.TF)
-				start := io.IndexToTime(w.Index, time.Duration(w.TF), int16(w.Year)).Unix()
-				for o := 0; o+w.VRL <= len(w.Payload); o += w.VRL {
-					ticks := binary.LittleEndian.Uint32(w.Payload[o+w.VRL-4:])
-					sec, ns := executor.GetTimeFromTicks(uint64(start), ipd, ticks)
-					t := time.Unix(int64(sec), int64(int32(ns))).UTC()
-					reticks := io.GetIntervalTicks32Bit(t, io.TimeToIndex(t, time.Duration(w.TF)), int64(ipd))
-					if f1At(ipd, ticks) || f1At(ipd, reticks) {
-						f1 = true
-					}
-				}
 			} else {
 				nfix++
 			}
@@ -546,18 +528,10 @@ func c25Run(raw json.RawMessage) (res Result, err error) {
 			}
 		}
 	}
-	if !res.Holds && obs.Code == 0 && len(obs.WErrs) == 0 {
-		if f1 {
-			res.Class = "decoded-second-rounded-up"
-		}
-	}
-	res.InDomain = obs.Code == 0 && !f1
+	res.InDomain = obs.Code == 0
 	res.Tags = []string{fmt.Sprintf("tgs=%d", len(obs.TGs)), fmt.Sprintf("buckets=%d", len(in.Buckets))}
 	if mixed {
 		res.Tags = append(res.Tags, "mixed-tg")
-	}
-	if f1 {
-		res.Tags = append(res.Tags, "decoded-second-rounded-up")
 	}
 	if nvar > 0 {
 		res.Tags = append(res.Tags, "has-variable")
@@ -585,7 +559,7 @@ func init() {
 			"1-3 writes x 1-3 rows (same second / same interval / later intervals, year edges, nanoseconds 0 / 999999999 / small / random), " +
 			"each TG = one flush on a real master instance; single-write TGs go through the real WriteCSM 60% of the time; the recorded TG " +
 			"stream is replayed on a real replica instance by replication.Receiver.Run; distinct = distinct input JSON; non-trivial = inside " +
-			"the guard (no tick exposed to the decoder's second rounding) with >= 2 write sets",
+			"the guard (well-formed write sets) with >= 2 write sets",
 		Gen: c25Gen,
 		Run: c25Run,
 	})
